@@ -116,6 +116,32 @@ def gen(ms, smax, bmax, kinds, ncols, pads, alias, alias_max_m=9):
       rows0 = [x for b in out for x in b[0]]; rows1 = [x for b in out for x in b[1]]
       # whatever was emitted before the rejection are aligned rows of the good batch only
       return rows0 == list(range(len(rows0))) and rows1 == [100 + x for x in rows0] and len(rows0) <= s0"""))
+  # numpy columns (np.concatenate / np.pad are C code): the sizes are decided by solver branches, then the library runs untraced
+  # on concrete float arrays - rows are conserved exactly (values and dtype), padding is only appended
+  s.append(F('ob_rebatch_numpy_pad', 's0: int, s1: int, bs: int, neg: bool', '0 <= s0 <= 3 and 0 <= s1 <= 3 and 1 <= bs <= 3', """
+      def conc(x, hi):
+        for v in range(hi + 1):
+          if x == v: return v
+        return hi
+      s0 = conc(s0, 3); s1 = conc(s1, 3); bs = conc(bs, 3); padv = -1 if neg else 0
+      import contextlib
+      try:
+        from crosshair.tracers import NoTracing as untraced
+      except ImportError:
+        untraced = contextlib.nullcontext
+      with (untraced() if _VF_SYMBOLIC else contextlib.nullcontext()):
+        import numpy
+        rows = [0.25 + i for i in range(s0 + s1)]                       # non-integral floats
+        col = lambda part, off: numpy.array([off + r for r in part], dtype=float)
+        batches = [(col(rows[:s0], 0.0), col(rows[:s0], 100.0)), (col(rows[s0:], 0.0), col(rows[s0:], 100.0))]
+        out = list(iter_utils.rebatched_args(iter(batches), bs, num_columns=2, pad=padv))
+        flat0 = [float(x) for b in out for x in b[0]]
+        flat1 = [float(x) for b in out for x in b[1]]
+        n = s0 + s1
+        ok = all(len(b[0]) == bs and len(b[1]) == bs for b in out)                       # every batch has the target size
+        ok = ok and flat0[:n] == rows and flat1[:n] == [100.0 + r for r in rows]          # rows conserved exactly, columns aligned
+        ok = ok and all(x == padv for x in flat0[n:]) and all(x == padv for x in flat1[n:]) and len(flat0) - n < bs
+      return ok"""))
   s.append(F('ob_rebatch_empty_stream_infer', 'bs: int', f'1 <= bs <= {bmax}',
              "return list(iter_utils.rebatched_args(iter([]), bs)) == []"))
   s.append(F('ob_rebatch_passthrough', 's0: int, s1: int', f'0 <= s0 <= {smax} and 0 <= s1 <= {smax}', """
@@ -190,7 +216,7 @@ def run(tier):
   rep.bounds(rebatched_args=p, pipeline=pp, per_condition_timeout_s=timeout,
              note='ms = numbers of input batches; each batch size 0..smax, target 1..bmax (0 = pass-through); '
                   'alias: a batch may be the same object as its predecessor')
-  rep.outside('numpy-array columns (np.concatenate/np.pad are C code; replayed concretely only)', 'more input batches / larger sizes than the bounds',
+  rep.outside('numpy-array columns beyond ob_rebatch_numpy_pad (two float columns, two input batches of <= 3 rows, sizes concretised by solver branches, library run untraced)', 'more input batches / larger sizes than the bounds',
               'what happens after a ragged batch was rejected (the rejection itself is an obligation: ob_rebatch_ragged_rejected)')
   rep.assume('np.zeros(int) batch-size vector replaced by a pure-Python int vector during symbolic runs (stub: _NpShim); '
              'concrete replays use real numpy', 'CrossHair/z3 sound for int/list semantics')
